@@ -70,8 +70,6 @@ theorem kindHook_identity (o : Opts) (env : Env) (hrt : o.resolveType = false) (
   split
   · rename_i heq; injection heq with h1; subst h1; simp [isJsxKind] at hk
   · exact ⟨rfl, importHook_forget _ _⟩
-  · simp [ifaceHook, hrt]
-  · simp [aliasHook, hrt]
   · simp [callHook, hrt]
   · simp [declaratorHook, hrt]
   · exact ⟨rfl, rfl⟩
@@ -196,7 +194,7 @@ theorem C09_module_identity (o : Opts) (env : Env) (hrt : o.resolveType = false)
   have h2 := visitKids_identity o env hrt rest .module .normal 1 _ hjr hq1
   have hq2 := quiet_of_forget h2.2 hq1
   have hfin := hf0 _ (h2.2.trans h1.2)
-  simp only [transformModule, h1.1, h2.1, finishModule, drainInto_quiet _ _ hq2, hfin.1, hfin.2.1, hfin.2.2]
+  simp only [transformModule, hrt, Bool.false_eq_true, if_false, h1.1, h2.1, finishModule, drainInto_quiet _ _ hq2, hfin.1, hfin.2.1, hfin.2.2]
   simp
 
 -- non-vacuity: a JSX-free tree with assignments, arrows, statement lists and an import from 'vue'
